@@ -74,6 +74,10 @@ def run(tier, replay=None):
         progs += progen.depth_sweep(depths=(0, 17, 24) if thorough else (17,), rng_seed=seed())
         progs += progen.op_at_depth(depths=(16, 17, 20) if thorough else (16,), rng_seed=seed())
         progs += progen.corpus(seed() + 12, 240 if thorough else 32, nstmts=14 if thorough else 10)
+        # trace-shape boundaries: executed cycles / chiplet rows of exactly 2^k - 2, 2^k - 1, 2^k (the last rows of a component
+        # then sit next to the random row, where the auxiliary columns must still close)
+        progs += vmtrace.cycle_boundary_programs(wd, targets=(62, 63, 64, 126, 127, 128, 254, 255, 256) if thorough else (63, 64, 127))
+        progs += vmtrace.chiplet_boundary_programs(thorough)
     # T1 : bags
     rec = vmtrace.record(progs, wd, "release")
     rows, states, rejects, runs = vmtrace.validate(rec, wd, "c12")
